@@ -126,11 +126,13 @@ PLAN = {
     "C10": {
         "quick": [
             {"run": "TestC10_Totality", "checks": 4000},
+            {"run": "TestC10_Paths", "checks": 500},
             {"run": "TestC10_Missing|TestC10_Replay"},
             {"run": "FuzzC10_LoadSearch"},
         ],
         "thorough": [
             {"run": "TestC10_Totality", "checks": 300000, "shards": 16, "timeout": 7200},
+            {"run": "TestC10_Paths", "checks": 20000, "shards": 2, "timeout": 7200},
             {"run": "TestC10_Missing|TestC10_Replay"},
             {"run": "FuzzC10_LoadSearch", "fuzz": "FuzzC10_LoadSearch", "fuzztime": "480s", "parallel": 16, "timeout": 1500},
         ],
